@@ -259,11 +259,14 @@ Qed.
 
 (* ---------- after ListSignatures: notation.go:586-605 ---------- *)
 Variables (zd : Desc) (e_nosig : err) (lerr : option err).
+(* errors.Is(err, errExceededMaxVerificationLimit) (notation.go:587): whatever it answers, the
+   outcomes returned next to an error are nil *)
+Variable is_exc : option err -> bool.
 
 Definition ref_tail (r : cvars * option err) : Desc * list (ptr Outcome) * option err :=
   let '(n, opts, failed, succ, outs, e) := r in
   if is_some e && negb (err_is e (Some e_done)) then
-    if err_is e (Some e_exceeded) then (zd, outs, e) else (zd, [], e)
+    if is_exc e then (zd, outs, e) else (zd, [], e)
   else if (n =? 0)%Z then (zd, [], Some e_nosig)
   else if negb succ then (zd, outs, err_join failed)
   else (ad, outs, None).
@@ -313,7 +316,7 @@ Proof.
     cbn [s0 s_ok] in Hok. rewrite Hok in Hk. destruct Hk as (-> & ->). subst e.
     rewrite Hl. destruct lerr as [x|] eqn:El.
     + rewrite lerr_not_done. cbn [is_some andb negb err_obs o_desc o_outs o_res conc_outs_listing conc_res_listing].
-      rewrite El. destruct (err_is (Some x) (Some e_exceeded)); reflexivity.
+      rewrite El. apply if_same.
     + cbn [is_some andb]. subst n.
       destruct (s_n s) as [|m] eqn:En; cbn [Nat.eqb].
       * cbn. reflexivity.
@@ -385,6 +388,7 @@ Variable e_retrieval : err -> err.
 Variable fail_fmt : string.
 Variable zd : Desc.
 Variable skip_outcome : ptr Level -> ptr Outcome.
+Variable is_exc : option err -> bool.
 
 (* the arguments of Verify and what ListSignatures does *)
 Variables (nilv nilr has_skipper : bool) (vo : notation_go_VerifyOptions).
@@ -402,7 +406,7 @@ Definition L : list Desc := List.concat pages.
 Definition g0 : cvars Cert := (0%Z, o0, [Some e_vf], false, []).
 
 Definition ref_listing : Desc * list (ptr Outcome) * option err :=
-  ref_tail Cert ad e_exceeded e_done zd e_nosig
+  ref_tail Cert ad e_done zd e_nosig is_exc
     (ref_pages Cert fetch vverify ad maxv e_fetch e_exceeded e_done fail_fmt pages lerr g0).
 
 Definition ref_rest : Desc * list (ptr Outcome) * option err :=
@@ -494,7 +498,7 @@ Hypothesis verifier_not_done : forall a b c, err_is (snd (vverify a b c)) (Some 
 Lemma ref_listing_conc log : ref_listing = conc (after_listing abs log).
 Proof.
   unfold ref_listing, g0.
-  rewrite (ref_listing_model Cert fetch vverify ad o0 maxv e_fetch e_exceeded e_done e_vf fail_fmt L zd zd e_nosig lerr
+  rewrite (ref_listing_model Cert fetch vverify ad o0 maxv e_fetch e_exceeded e_done e_vf fail_fmt L zd zd e_nosig lerr is_exc
              done_done fetch_not_done exceeded_not_done lerr_not_done verifier_not_done pages abs log);
     try reflexivity.
   destruct (after_listing_shape abs log) as (Hr & ok & Ho).
